@@ -2,7 +2,7 @@
    Print Assumptions.  Threads, schedules and histories are unbounded everywhere. *)
 From Coq Require Import ZArith List Bool Lia.
 Import ListNotations.
-From S2T Require Import C15.Model C15.ProofsPatch C15.ProofsMemo C15.ProofsShared.
+From S2T Require Import C15.Model C15.ProofsPatch C15.ProofsMemo C15.ProofsShared C15.Handles.
 
 (* ---- the protocol of the pristine tree (save / set / yield / restore, no lock) is REFUTED ---- *)
 
@@ -273,3 +273,20 @@ Proof.
   intro docs. split; [apply A|]. intro k. rewrite A. destruct k; reflexivity.
 Qed.
 Print Assumptions C15_aes_at_import_residue_free.
+
+(* ---- handle flow of the entry point read_file ---- *)
+
+(* if the skeleton acquires handles by `with open(...)` only, then on EVERY way out of the generator
+   - normal end, an exception at any statement, abandoned at a yield - and for any number of loop
+   iterations, exactly the handles that were open before are open *)
+Theorem C15_read_file_handles_closed :
+  forall (k : nat) (b : rblock) (h : nat) (o : outcome) (h' : nat),
+    no_raw_b b = true -> In (o, h') (exec_b k b h) -> h' = h.
+Proof. exact handles_closed. Qed.
+Print Assumptions C15_read_file_handles_closed.
+
+(* a raw os.open() followed by a check and only then `with os.fdopen(fd)` is REFUTED: the exception
+   raised in between leaves one handle open *)
+Theorem C15_raw_open_then_wrap_refuted : In (ORaise, 1%nat) (exec_b 1 raw_then_wrap 0).
+Proof. exact raw_then_wrap_leaks. Qed.
+Print Assumptions C15_raw_open_then_wrap_refuted.
